@@ -1,7 +1,7 @@
 """C18 - Letter case of the input sequences never changes the outcome."""
 import warnings
 
-from .. import gen, refmodel
+from .. import asmmon, gen, refmodel
 from ..util import rot_left, rc, canon
 from . import _embedded, C03, C05
 
@@ -55,7 +55,8 @@ def materialise(case):
 
 
 def worker_init(ctx, tier):
-    pass
+    # overhang graphs with closed loops are part of the workload: a walk that stops consuming modules is cut short on logical steps
+    asmmon.install_walk_guard(ctx)
 
 
 def apply_map(rng, texts, how):
@@ -90,6 +91,8 @@ def assemble_outcome(V, M, texts):
             return ("DuplicateModules", tuple(sorted(d.record.id for d in e.duplicates)))
         except Exception as e:
             return (type(e).__name__,)
+        except asmmon.RunawayWalk:
+            return ("RunawayWalk",)       # a chain walk that does not end is C03's and C17's finding; here it is just an outcome
 
 
 def compare_assembly(ctx, rng, V, M, texts, label):
